@@ -6,12 +6,13 @@ import (
 	"go/types"
 	"sort"
 	"strings"
+	"sync"
 
 	"golang.org/x/tools/go/ssa"
 )
 
 const maxInlineDepth = 5
-const maxInlineInstrs = 120
+const maxInlineInstrs = 300
 
 func (fc *FnCtx) args(c *ssa.CallCommon) ([]Val, error) {
 	var out []Val
@@ -120,6 +121,9 @@ func (fc *FnCtx) doCall(c *ssa.CallCommon, args []Val, at ssa.Value, rt types.Ty
 		return result, nil
 	}
 	// 2. builtin models of library functions
+	if name == "math/rand.Shuffle" {
+		return nil, fc.modelShuffle(c)
+	}
 	if m, ok := builtinModels[name]; ok {
 		v, err := m(fc, c, args, rt)
 		if err != nil {
@@ -168,7 +172,7 @@ func effectFree(name string) bool {
 		"strings.", "math.", "unicode.", "encoding/hex.", "(context.Context).", "context.", "math/rand.", "sort.Search", "(github.com/google/uuid.UUID).String",
 		"(github.com/tokenized/pkg/bitcoin.Hash32).String", "(*github.com/tokenized/pkg/bitcoin.Hash32).String", "(*math/big.Int).Text", "(*math/big.Int).String",
 		"github.com/google/uuid.New", "(*github.com/tokenized/threads.", "github.com/tokenized/threads.", "net.", "(net.", "(*net.", "os.", "(*sync.WaitGroup).",
-		"runtime.", "(*sync.Once)."} {
+		"runtime.", "(*sync.Once).", "(*bytes.Buffer).", "(*bytes.Reader).", "bytes.", "crypto/", "(crypto/", "hash.", "unicode/utf8.", "(*github.com/tokenized/threads.WaitingBuffer).", "(net.IP).", "(*math/rand."} {
 		if strings.HasPrefix(name, p) {
 			return true
 		}
@@ -420,7 +424,13 @@ type modTarget struct {
 	all  bool
 }
 
+// readsOf collects the readers named by reads(r) items of the modifies clause being evaluated (consumed by
+// applyModifies / the frame check).
+var readsOfMu sync.Mutex
+
 func (fc *FnCtx) modTargets(items []ast.Expr, se *SpecEnv) ([]modTarget, error) {
+	var readsOf []string
+	defer func() { fc.lastReads = readsOf }()
 	var out []modTarget
 	add := func(comp, sort, ref string) {
 		for i := range out {
@@ -555,6 +565,13 @@ func (fc *FnCtx) modTargets(items []ast.Expr, se *SpecEnv) ([]modTarget, error) 
 					return nil, err
 				}
 				add(elemComp(t), arraySort(arraySort(fc.sortStr(t))), "")
+			case "reads":
+				p, err := se.expr(x.Args[0])
+				if err != nil {
+					return nil, err
+				}
+				readsOf = append(readsOf, p.T)
+				_ = p
 			case "allchans":
 				pkg := fc.prog.pkgByPath(se.pkgPath)
 				t, err := resolveType(pkg, x.Args[0])
@@ -614,6 +631,12 @@ func (fc *FnCtx) applyModifies(con *Contract, se *SpecEnv, pre *State) error {
 	targets, err := fc.modTargets(con.Modifies, se)
 	if err != nil {
 		return fmt.Errorf("%s: modifies of %s: %v", con.Pos, con.Name, err)
+	}
+	// reads(r): the callee reads some number of bytes from r; the tee chain below r sees the same bytes
+	for _, rd := range fc.lastReads {
+		d := fc.vc.fresh("nread.call", "Int")
+		fc.vc.assume(fc.cur.reach, "(<= 0 "+d+")")
+		fc.readBytes(rd, d)
 	}
 	frontier := fc.alloc()
 	// the callee may allocate
@@ -817,6 +840,16 @@ func (fc *FnCtx) callMods(c *ssa.CallCommon, li *loopInfo, depth int) {
 		}
 		return
 	}
+	if name == "math/rand.Shuffle" {
+		if mc, ok := c.Args[1].(*ssa.MakeClosure); ok && len(mc.Bindings) == 1 {
+			if st, ok := mc.Bindings[0].Type().Underlying().(*types.Slice); ok {
+				li.mods[elemComp(st.Elem())] = true
+				return
+			}
+		}
+		li.modAll = true
+		return
+	}
 	if name == "sort.Sort" {
 		if mi, ok := c.Args[0].(*ssa.MakeInterface); ok {
 			if st, ok := mi.X.Type().Underlying().(*types.Slice); ok {
@@ -829,6 +862,18 @@ func (fc *FnCtx) callMods(c *ssa.CallCommon, li *loopInfo, depth int) {
 	}
 	if ms, ok := builtinMods[name]; ok {
 		for _, m := range ms {
+			if m == "*" {
+				// writes through a pointer argument: the pointee's components
+				for _, a := range c.Args {
+					if mi, ok := a.(*ssa.MakeInterface); ok {
+						a = mi.X
+					}
+					if _, ok := a.Type().Underlying().(*types.Pointer); ok {
+						fc.addrMods(li, a)
+					}
+				}
+				continue
+			}
 			li.mods[m] = true
 		}
 		return
@@ -893,6 +938,9 @@ func (fc *FnCtx) staticModComps(con *Contract) []string {
 	var out []string
 	for _, t := range ts {
 		out = append(out, t.comp)
+	}
+	if len(fc.lastReads) > 0 {
+		out = append(out, ghConsumed, ghCount)
 	}
 	return out
 }
@@ -1058,6 +1106,12 @@ func (fc *FnCtx) enterLoop(li *loopInfo, in *State) error {
 			}
 			li.modRefs[t.comp] = append(li.modRefs[t.comp], t.refs...)
 		}
+		if len(fc.lastReads) > 0 {
+			for _, g := range []string{ghConsumed, ghCount} {
+				modAllComps[g] = true
+			}
+			li.readsAll = true
+		}
 	}
 	// function-private memory (address-taken locals allocated before the loop) written by the body
 	for _, a := range li.localAllocs {
@@ -1199,6 +1253,9 @@ func (fc *FnCtx) backEdge(from, head *ssa.BasicBlock) error {
 				if skip {
 					continue
 				}
+			}
+			if li.readsAll && (comp == ghConsumed || comp == ghCount) {
+				continue
 			}
 			goal := frameFormula(fc.vc, inT, nowT, li.inAlloc, modTarget{comp: comp, refs: li.modRefs[comp], all: fc.loopModAll(li, comp)})
 			if goal == "true" {
